@@ -533,6 +533,130 @@ def _derived_refs(b, arr):
     return refs
 
 
+def _array_len_behind(b, op, depth=0):
+    """N when the operand is (a reference / unsized view of) a local `[u8; N]` array, else None."""
+    if depth > 8 or not is_place(op):
+        return None
+    l = op["p"]["l"]
+    m = re.match(r"^&?(?:mut )?\[u8; (\d+)\]$", b.local_ty(l))
+    if m and all(e["k"] == "deref" for e in op["p"]["pr"]):
+        return int(m.group(1))
+    ds = b.whole_defs(l)
+    if len(ds) != 1 or ds[0][2] != "assign":
+        return None
+    rv = ds[0][3]["rv"]
+    if rv["k"] in ("use", "cast"):
+        return _array_len_behind(b, rv["op"], depth + 1)
+    if rv["k"] in ("ref", "copyforderef"):
+        return _array_len_behind(b, {"k": "copy", "p": {"l": rv["p"]["l"], "pr": [e for e in rv["p"]["pr"] if e["k"] != "deref"]}}, depth + 1)
+    return None
+
+
+def _byte_count(b, op):
+    """The constant number of bytes an operand denotes: an integer constant, or `.len()` of a `[u8; N]` array."""
+    if op.get("k") == "const":
+        v = op.get("v")
+        return v if isinstance(v, int) and not isinstance(v, bool) else None
+    tr = trace(b, op)
+    if tr.origin and tr.origin[0] == "const" and isinstance(tr.origin[1].get("v"), int):
+        return tr.origin[1]["v"]
+    if tr.origin and tr.origin[0] == "call" and (fn_of(tr.origin[2]) or {}).get("name") == "len" and tr.origin[2]["args"]:
+        return _array_len_behind(b, tr.origin[2]["args"][0])
+    return None
+
+
+def _block_effects(b, bi, pos_field):
+    """(bytes consumed from a reader, bytes added to the position field) by block bi; None for an amount that is
+    not a constant."""
+    used = adv = 0
+    t = b.blocks[bi]["term"]
+    if t["k"] == "call":
+        f = fn_of(t) or {}
+        if f.get("trait") == "std::io::Read" and f.get("name") == "read_exact" and len(t["args"]) == 2:
+            k = _array_len_behind(b, t["args"][1])
+            used = None if k is None else k
+        elif f.get("trait") == "std::io::BufRead" and f.get("name") == "consume" and len(t["args"]) == 2:
+            k = _byte_count(b, t["args"][1])
+            used = None if k is None else k
+        elif f.get("trait") == "std::io::Read" and f.get("name") in ("read", "read_to_end", "read_buf", "read_vectored", "read_to_string"):
+            used = None
+    for s_ in b.blocks[bi]["stmts"]:
+        if s_["k"] == "assign" and s_["p"]["pr"] and s_["p"]["pr"][-1]["k"] == "field" and s_["p"]["pr"][-1].get("name") == pos_field:
+            # `self.pos = (self.pos + k).0`: find the addend
+            tr = trace(b, s_["rv"]["op"]) if s_["rv"]["k"] == "use" else None
+            k = None
+            if tr is not None and tr.origin and tr.origin[0] == "rvalue" and tr.origin[1]["rv"]["k"] == "binop" and tr.origin[1]["rv"]["op"] in ("Add", "AddWithOverflow"):
+                k = _byte_count(b, tr.origin[1]["rv"]["b"])
+            adv = None if (k is None or adv is None) else adv + k
+    return used, adv
+
+
+@rule("R07.8", 2, "a code-unit reader takes exactly one unit's bytes from the source for the unit it decodes, and advances its position by the same amount, on every path", ["C07"])
+def r07_8(ctx):
+    lib = ctx.lib
+    d = detect_fn(lib)
+    n = 0
+    for b in lib.bodies:
+        if b.file != d.file:
+            continue
+        for dbb, dt in b.calls():
+            f = fn_of(dt) or {}
+            callee = lib.by_id.get(f.get("resolved") or f.get("def"))
+            if not (callee and f.get("local") and len(dt["args"]) == 2):
+                continue
+            m = re.match(r"^\[u8; (\d+)\]$", callee.local_ty(2))
+            if not m or callee.local_ty(0) not in ("u16", "u32"):
+                continue
+            width = int(m.group(1))
+            n += 1
+            adt = lib.adts.get(b.raw.get("impl_self_adt") or "", {})
+            pos_fields = [fl["name"] for fl in (adt.get("variants") or [{"fields": []}])[0]["fields"] if fl["ty"] == "u64"]
+            pos_field = pos_fields[0] if len(pos_fields) == 1 else None
+            # every simple path from the entry to the decode call
+            paths = []
+            overflow = [False]
+
+            def walk(bi, seen, used, adv):
+                if len(paths) > 4000:
+                    overflow[0] = True
+                    return
+                if bi != dbb or not seen:
+                    u, a = _block_effects(b, bi, pos_field) if bi != dbb else (0, 0)
+                    used = None if (u is None or used is None) else used + u
+                    adv = None if (a is None or adv is None) else adv + a
+                if bi == dbb:
+                    paths.append((used, adv, tuple(seen)))
+                    return
+                for lab, x in b.edges(bi):
+                    if x in seen or b.blocks[x].get("cleanup"):
+                        continue
+                    walk(x, seen + [x], used, adv)
+
+            walk(0, [0], 0, 0)
+            # position updates may also follow the decode: extend each path to the returns
+            bad_used = sorted({u for u, _, _ in paths if u != width}, key=str)
+            ok_u = bool(paths) and not bad_used and not overflow[0]
+            ctx.ob(f"unit-bytes:{b.name}", ok_u, site(b, dbb),
+                   f"{len(paths)} path(s) to the decode of a {width}-byte unit: each takes exactly {width} byte(s) from the source" if ok_u else
+                   f"a path to the decode of a {width}-byte unit takes {bad_used} byte(s) from the source (None = not a constant): later units are decoded misaligned")
+            if pos_field:
+                tail = _block_effects(b, dbb, pos_field)[1] or 0
+                after = 0
+                cur = dt["target"]
+                guard = 0
+                while cur is not None and guard < 6:
+                    guard += 1
+                    a = _block_effects(b, cur, pos_field)[1]
+                    after = None if (a is None or after is None) else after + a
+                    nx = [x for lab, x in b.edges(cur) if not b.blocks[x].get("cleanup")]
+                    cur = nx[0] if len(nx) == 1 else None
+                bad_adv = sorted({(a + tail + after) if (a is not None and after is not None) else None for _, a, _ in paths} - {width}, key=str)
+                ok_a = bool(paths) and not bad_adv
+                ctx.ob(f"unit-position:{b.name}", ok_a, site(b, dbb),
+                       f"`{pos_field}` advances by {width} for each decoded unit" if ok_a else f"`{pos_field}` advances by {bad_adv} instead of {width} on some path: error offsets drift")
+    ctx.ob("unit-readers", n >= 2, site(d), f"{n} code-unit decode site(s)")
+
+
 @rule("R07.7", 1, "a character encoded into a scratch array is emitted only up to its encoded length: every slice of the scratch array ends at encode_utf8(..).len() (or at a minimum with it)", ["C07"])
 def r07_7(ctx):
     lib = ctx.lib
